@@ -15,9 +15,9 @@ if ! git apply --check -R MUTANT/patch.diff 2>/dev/null; then echo "FAIL: worktr
 mv "$demo" "$wt/target/demo-aside.rs"
 if cargo test --workspace --offline >"$wt/target/suite.log" 2>&1; then echo "existing suite with patch: PASS"; else echo "existing suite with patch: FAIL"; grep -E "FAILED|failed" "$wt/target/suite.log" | head; mv "$wt/target/demo-aside.rs" "$demo"; exit 1; fi
 mv "$wt/target/demo-aside.rs" "$demo"
-if cargo test --manifest-path "crates/$crate/Cargo.toml" --test "$name" --offline >"$wt/target/demo-with.log" 2>&1; then echo "demo with patch: PASSES (bad)"; exit 1; else echo "demo with patch: fails (good)"; fi
+if cargo test --manifest-path "crates/$crate/Cargo.toml" --test "$name" --offline ${DEMO_FLAGS:-} >"$wt/target/demo-with.log" 2>&1; then echo "demo with patch: PASSES (bad)"; exit 1; else echo "demo with patch: fails (good)"; fi
 git apply -R MUTANT/patch.diff
-if cargo test --manifest-path "crates/$crate/Cargo.toml" --test "$name" --offline >"$wt/target/demo-without.log" 2>&1; then echo "demo without patch: passes (good)"; ok=1; else echo "demo without patch: FAILS (bad)"; ok=0; fi
+if cargo test --manifest-path "crates/$crate/Cargo.toml" --test "$name" --offline ${DEMO_FLAGS:-} >"$wt/target/demo-without.log" 2>&1; then echo "demo without patch: passes (good)"; ok=1; else echo "demo without patch: FAILS (bad)"; ok=0; fi
 git apply MUTANT/patch.diff
 [ "$ok" = 1 ] || exit 1
 mkdir -p "$V/seeded/$id"
